@@ -14,7 +14,10 @@ pub const SIGMA: [char; 15] = ['a', 'A', 'b', '\u{e9}', '\u{c9}', '\u{df}', 'k',
 /// trailing backslash can be matched positively (not only refuted).
 pub const SIGMA_EXTRA: [char; 3] = ['\\', '%', '_'];
 /// LIKE pattern symbols
-pub const PAT_SYMS: [char; 8] = ['%', '_', '\\', 'a', 'A', '\u{e9}', '.', '\n'];
+/// (`k` is not in the DESIGN list: it is the ASCII pattern character whose regex case-fold class
+/// contains a non-ASCII scalar value, U+212A, which is what separates the ASCII fast paths of ILIKE from
+/// the regex definition)
+pub const PAT_SYMS: [char; 9] = ['%', '_', '\\', 'a', 'A', 'k', '\u{e9}', '.', '\n'];
 /// regex symbols
 pub const RE_SYMS: [char; 9] = ['a', '.', '*', '^', '$', '(', ')', '|', '\u{e9}'];
 /// fixed 13-byte affixes that force Utf8View values out of line (contain a regex meta character)
